@@ -402,6 +402,11 @@ fn host_ops(rep: &mut Report, only: Option<(bool, usize, usize)>) {
                     let after_poke = e.verif_frame_clocks();
                     let _ = e.peek(a);
                     let _ = e.border_color();
+                    let after_peek = e.verif_frame_clocks();
+                    if ai == 0 {
+                        // a screen file loaded at this stop
+                        let _ = e.load_screen(rustzx_core::host::Screen::Scr(VAsset::new(vec![(ti as u8) | 1; 6912])));
+                    }
                     let after = e.verif_frame_clocks();
                     rep.eval();
                     rep.class(format!("host-op m128={} bank={} region={:x} contended-time={}", m128, bank, a >> 14, t >= first && t < first + 192 * line));
@@ -409,10 +414,10 @@ fn host_ops(rep: &mut Report, only: Option<(bool, usize, usize)>) {
                         viol(
                             rep,
                             Kind::SpecViolated,
-                            if after_poke != before { "C05/host-op/poke" } else { "C05/host-op/peek" },
+                            if after_poke != before { "C05/host-op/poke" } else if after_peek != before { "C05/host-op/peek" } else { "C05/host-op/load-screen" },
                             format!(
                                 "{} (bank {} at 0xC000) stopped at frame offset {}: a host {} of {:04x} moves the frame offset to {} although nothing was executed — executed T-states no longer equal frames*L + offset",
-                                if m128 { "128K" } else { "48K" }, bank, before, if after_poke != before { "poke" } else { "peek" }, a, after
+                                if m128 { "128K" } else { "48K" }, bank, before, if after_poke != before { "poke" } else if after_peek != before { "peek" } else { "load_screen after a poke/peek" }, a, after
                             ),
                             format!("hostop {} {} {} {}", if m128 { 128 } else { 48 }, t, ai, bank),
                             format!("{}", after),
@@ -477,7 +482,7 @@ real wait_internal over many frames, (offset, frames, INT) compared after every 
 total = frames*L + offset, INT <=> offset < 32; system level: counting loop (16 T/iteration) run for 1..14 frames sliced \
 1/2/3/14 frames per emulate_frames call on both machines (executed T-states must equal frames*L+offset), IM 2 \
 interrupt counters under HALT and busy loops (exactly one interrupt per frame start), and the INT window swept with \
-an interrupt-enabled CPU at every frame offset 0..47; host pokes/peeks at a mid-frame stop (every phase of the contention pattern, every memory region and 128K bank) must leave the frame offset alone; interrupt-driven programs (EI;HALT under IM 2 with a handler that re-enables interrupts at once / after more than 32 T; a repeating LDIR with interrupts enabled at every phase relative to the frame start; code in uncontended and contended RAM) run across a frame start in lock-step with the Lean machine. distinct/non-trivial = distinct (machine, offset near a frame \
+an interrupt-enabled CPU at every frame offset 0..47; host pokes/peeks/screen-file loads at a mid-frame stop (every phase of the contention pattern, every memory region and 128K bank) must leave the frame offset alone; interrupt-driven programs (EI;HALT under IM 2 with a handler that re-enables interrupts at once / after more than 32 T; a repeating LDIR with interrupts enabled at every phase relative to the frame start; code in uncontended and contended RAM) run across a frame start in lock-step with the Lean machine. distinct/non-trivial = distinct (machine, offset near a frame \
 edge, INT level) clock observations + distinct program/slicing/offset cases".into();
     let mut model = Model::spawn(&o.model, "C05");
     if let Some(text) = &o.replay {
